@@ -34,7 +34,7 @@ theorem inv_run (cfg : Config) (G : String → Bool) (hc : CfgOK cfg G) (ops : L
   Cache.inv_run hc ops inv_empty hr
 
 /-- the invariant is not vacuous: a concrete world with live memos satisfies it after a history -/
-example : let cfg : Config := ⟨[("a", .cprop), ("b", .lru)], ["a", "b"], true, true, true, true, [("b", ["a"])], [("q", ["a", "b"])], ["b"]⟩
+example : let cfg : Config := ⟨[("a", .cprop), ("b", .lru)], ["a", "b"], true, true, true, true, true, [("b", ["a"])], [("q", ["a", "b"])], ["b"]⟩
     RunOK cfg World.empty [.new, .add 0 ⟨"R1", "R", ["1", "0"], "1"⟩, .query 0 "q", .add 0 ⟨"R1", "R", ["1", "2"], "5"⟩,
       .query 0 "q", .remove 0 "R1", .derive 0 "q" [⟨"C1", "C", ["1", "0"], "1"⟩]] := by
   intro cfg
@@ -71,27 +71,6 @@ theorem fresh_refinement_on (cfg : Config) (G : String → Bool) (hc : CfgOK cfg
       funext n; rw [(htab n).2, buildTab_deg]
     simp only [structural, hc1, hd1]
 
-theorem lookup_mem {α : Type} (l : List (String × α)) (s : String) (k : α) (h : l.lookup s = some k) : (s, k) ∈ l := by
-  induction l with
-  | nil => simp [List.lookup] at h
-  | cons x xs ih =>
-    obtain ⟨a, b⟩ := x
-    by_cases hs : s = a
-    · subst hs; simp [List.lookup] at h; subst h; exact List.mem_cons_self ..
-    · have : (s == a) = false := by simpa using hs
-      simp [List.lookup, this] at h
-      exact List.mem_cons_of_mem _ (ih h)
-
-theorem runOK_of_flags (cfg : Config) (hadd : cfg.addInvalidates = true) (hrem : cfg.removeInvalidates = true)
-    (hdet : cfg.overrideDetaches = true) (ops : List Op) (w : World)
-    (hpub : ∀ op ∈ ops, op.isPublic) (hok : NoRaise cfg w ops) : RunOK cfg w ops := by
-  induction ops generalizing w with
-  | nil => trivial
-  | cons op ops ih =>
-    refine ⟨?_, hok.1, ih _ (fun o ho => hpub o (List.mem_cons_of_mem _ ho)) hok.2⟩
-    have hp := hpub op (List.mem_cons_self ..)
-    cases op <;> simp_all [Op.admissible, Op.isPublic]
-
 /-- FULL PROPERTY.  If `_invalidate` clears every memoised member, `add` and `remove` call it, and
     overriding a name detaches the old component, then for every history of public operations that
     raises no exception, every query on every instance answers as on a freshly built circuit.
@@ -114,6 +93,23 @@ theorem fresh_refinement (cfg : Config)
   obtain ⟨h1, h2⟩ := fresh_refinement_on cfg (fun _ => true) hc ops
     (runOK_of_flags cfg hadd hrem hdet ops _ hpub hok) i inst hi
   exact ⟨fun q => h1 q (fun _ _ => rfl), h2⟩
+
+/-- the hypotheses of `fresh_refinement` are satisfiable by a configuration with live memo slots of
+    every kind and a history with an override, queries, a removal, a failing-free copy and work on
+    the copy -/
+example : let cfg : Config := ⟨[("a", .cprop), ("b", .lru), ("c", .hasattr)], ["a", "b", "c"], true, true, true, true, true,
+      [("b", ["a", "c"])], [("q", ["a", "c", "b"])], ["b"]⟩
+    let ops : List Op := [.new, .add 0 ⟨"R1", "R", ["1", "0"], "1"⟩, .query 0 "q", .add 0 ⟨"R1", "R", ["1", "2"], "5"⟩,
+      .query 0 "q", .derive 0 "q" [⟨"R1", "R", ["1", "2"], "5"⟩], .add 1 ⟨"C1", "C", ["2", "0"], "1"⟩, .query 1 "q",
+      .remove 0 "R1", .query 0 "q"]
+    (∀ p ∈ cfg.memoised, cfg.isCleared p.1 = true) ∧ (∀ op ∈ ops, op.isPublic) ∧ NoRaise cfg World.empty ops ∧
+    (run cfg World.empty ops).insts.length = 2 := by
+  intro cfg ops
+  refine ⟨by decide, ?_, ?_, by decide⟩
+  · intro op hop
+    simp only [ops, List.mem_cons, List.mem_nil_iff, or_false] at hop
+    rcases hop with h | h | h | h | h | h | h | h | h | h <;> subst h <;> simp [Op.isPublic, uniqueNames]
+  · simp only [NoRaise, ops]; decide
 
 /-- PARTIAL (what holds of a code base whose `_invalidate` misses some slots and/or whose
     `_cpt_add` does not detach an overridden component): excluded are (1) the queries that read a
@@ -173,6 +169,25 @@ theorem remove_unknown_atomic (cfg : Config) (w : World) (i : Nat) (nm : String)
     remove cfg w i nm = (w, false) := by
   simp [remove, hi, hn]
 
+/-- error branch: when `Node.remove` deletes a node only if no connection remains, removing a
+    known component never stops half way (cf. `failed_remove_corrupts` for the unguarded code) -/
+theorem remove_known_completes (cfg : Config) (hk : cfg.keepConnectedNode = true) (w : World) (i : Nat)
+    (nm : String) (inst : Inst) (e : Elt) (hi : w.insts[i]? = some inst) (he : findElt inst.elts nm = some e) :
+    (remove cfg w i nm).2 = true := by
+  have hlt : i < w.insts.length := by
+    rcases Nat.lt_or_ge i w.insts.length with h1 | h1
+    · exact h1
+    · rw [List.getElem?_eq_none h1] at hi; cases hi
+  unfold remove
+  simp only [hi, he, hk]
+  by_cases hr : cfg.removeInvalidates = true
+  · simp only [hr, if_true, invalidate, hi, List.getElem?_set, hlt]
+    obtain ⟨t', ht'⟩ := detachAll_total e.nodes inst.tab e.counted
+    simp [ht']
+  · have hr' : cfg.removeInvalidates = false := by simpa using hr
+    obtain ⟨t', ht'⟩ := detachAll_total e.nodes inst.tab e.counted
+    simp [hr', hi, ht']
+
 /-! ## transformer memo tables -/
 
 /-- a transform answered through the memo table = the transform computed without it, for every
@@ -218,6 +233,7 @@ def cfgF14 : Config where
   removeInvalidates := true
   initInvalidates := true
   overrideDetaches := false
+  keepConnectedNode := false
   deps := [("analyse", ["_components"])]
   reads := [("capacitors", ["_components"]), ("has_dc", ["_components", "analyse"]), ("node_list", ["node_list"])]
   spawns := []
